@@ -259,7 +259,7 @@ var families = []family{
 	}},
 	{"setex", 2, func(g *gen) []string {
 		s := "1000000"
-		if !g.plain && g.t.Bool(150) {
+		if !g.plain && g.t.Bool(60) {
 			s = g.pick([]string{"0", "-1", "x", ""})
 		}
 		return []string{"setex", g.key(), s, g.val()}
@@ -406,6 +406,10 @@ var famWeights = func() []int {
 // argument appended): a failed command must change nothing.
 func (g *gen) cmd() []string {
 	a := families[g.t.Weighted(famWeights)].f(g)
+	for try := 0; try < 20 && len(a) > 1 && strings.HasSuffix(a[1], ":") && !kvCmd(a[0]); try++ {
+		// collections refuse an empty key name; only strings are tried with it
+		a = families[g.t.Weighted(famWeights)].f(g)
+	}
 	if !g.plain && g.t.Bool(30) {
 		if g.t.Bool(500) && len(a) > 2 {
 			a = a[:len(a)-1]
@@ -424,6 +428,14 @@ func (g *gen) write() []string {
 			return a
 		}
 	}
+}
+
+func kvCmd(name string) bool {
+	switch name {
+	case "set", "setex", "get", "getset", "setnx", "append", "strlen", "setrange", "getrange", "incr", "incrby", "decr", "decrby", "del", "exists", "mget":
+		return true
+	}
+	return false
 }
 
 func isRead(name string) bool {
